@@ -786,9 +786,14 @@ def random_spec(rng, big=False):
         kw["two_channels"] = rng.choice([("Red", "Green"), ("Red", "Blue"), ("Green", "Blue")])
     if colour == "rgb":
         kw["align"] = rng.chance(0.5)
-    return bt.make_spec(files=files, h=h, w=w, colour=colour, t0=bt.T0 + rng.randint(0, 10**12), period=period,
+    spec = bt.make_spec(files=files, h=h, w=w, colour=colour, t0=bt.T0 + rng.randint(0, 10**12), period=period,
                         frame_len=frame_len, exposure=exposure, gap=rng.choice([0, 0, rng.randint(1, 5 * period)]),
                         software=software, **kw)
+    if len(spec["files"]) > 1 and rng.chance(0.5):
+        order = list(range(len(spec["files"])))
+        rng.shuffle(order)
+        spec["open_order"] = order
+    return spec
 
 
 def rnd_bound(rng, m, none_p=0.25):
@@ -959,6 +964,9 @@ def cases(tier, rng):
     # other stack flavours at the first level (multi-file, RGB, two-colour, variable exposure, legacy)
     flavours = [
         bt.make_spec(files=(2, 3, 1), **SMALL),
+        # files of unequal length handed over out of chronological order (seeded change C07a-m1)
+        dict(bt.make_spec(files=(2, 3, 1), **SMALL), open_order=[2, 0, 1]),
+        dict(bt.make_spec(files=(4, 2), **SMALL), open_order=[1, 0]),
         bt.make_spec(files=(6,), colour="rgb", **SMALL),
         bt.make_spec(files=(3, 3), colour="rgb", align=True, **SMALL),
         bt.make_spec(files=(6,), colour="two", **SMALL),
